@@ -86,16 +86,18 @@ PROPS = {
     ),
     "C06": dict(
         title="Group-element encodings are canonical, injective and strictly decoded",
-        verus=[("p256_decode", None, "quick"), ("jq255e_codec", None, "quick"), ("jq255s_codec", None, "quick"), ("jq255e_law", None, "quick"), ("jq255s_law", None, "quick")], kani=[],
+        verus=[("p256_decode", None, "quick"), ("secp256k1_decode", 100, "quick"), ("ed448_decode", 100, "quick"), ("ed25519_decode", 100, "quick"), ("ed448_law", None, "quick"), ("jq255e_codec", None, "quick"), ("jq255s_codec", None, "quick"), ("jq255e_law", None, "quick"), ("jq255s_law", None, "quick")], kani=[],
         cases=_c(["decode_strict", "encode_equals", "subgroup_flags", "neutral_consistency"]),
-        level_text="P-256 Point::set_decode is proved by Verus, for every byte string of every length, to return the SEC 1 section 2.3.4 result: status all-ones exactly for 0x00 (neutral), 0x02/0x03 || X with X < p big-endian and X^3 - 3X + b a square (Y = the root of the requested parity), 0x04 || X || Y with X, Y < p on the curve; every other string (wrong length, wrong prefix, non-canonical coordinate, off-curve) gives status 0 and the neutral point; the stored coordinates are the decoded ones with Z = 1. Field operations are declared value-level contracts (decode32, +, -, *, square, sqrt, equals, select, set_cond, encode). jq255e / jq255s: set_decode / decode accept exactly the 32-byte strings whose little-endian value u is below q with bp*u^4 + ap*u^2 + 1 a square, store (E, 1, u, u^2) with E the non-negative root, and the neutral (-1:1:0:0) on rejection; encode returns U/Z negated when E/Z is negative (extra/jq255-formulas.txt, Decoding / Encoding); isneutral is U == 0 and equals is U1*E2 == U2*E1 (same document).",
+        level_text="secp256k1 Point::set_decode: the same SEC 1 statement as for P-256 below (y^2 = x^3 + 7), with bswap32 and the w64be / w64le constructors proved. edwards25519 and edwards448 Point::set_decode: proved equal to the RFC 8032 5.1.3 / 5.2.3 decoding procedure for every byte string (length, sign bit, y < p canonical, candidate root x = u v^3 (u v^7)^((p-5)/8) resp. u^3 v (u^5 v^3)^((p-3)/4) - the addition chains of the code are proved to compute these powers - the v x^2 == +-u tests with the sqrt(-1) fix-up, rejection of x = 0 with sign 1, parity selection, T = x*y, neutral on failure), plus the lemma that an accepted string yields a canonical y, a point on the curve and the requested parity. edwards448 equals / isneutral as cross-multiplied comparisons. P-256 Point::set_decode is proved by Verus, for every byte string of every length, to return the SEC 1 section 2.3.4 result: status all-ones exactly for 0x00 (neutral), 0x02/0x03 || X with X < p big-endian and X^3 - 3X + b a square (Y = the root of the requested parity), 0x04 || X || Y with X, Y < p on the curve; every other string (wrong length, wrong prefix, non-canonical coordinate, off-curve) gives status 0 and the neutral point; the stored coordinates are the decoded ones with Z = 1. Field operations are declared value-level contracts (decode32, +, -, *, square, sqrt, equals, select, set_cond, encode). jq255e / jq255s: set_decode / decode accept exactly the 32-byte strings whose little-endian value u is below q with bp*u^4 + ap*u^2 + 1 a square, store (E, 1, u, u^2) with E the non-negative root, and the neutral (-1:1:0:0) on rejection; encode returns U/Z negated when E/Z is negative (extra/jq255-formulas.txt, Decoding / Encoding); isneutral is U == 0 and equals is U1*E2 == U2*E1 (same document).",
         level_note="Declared dependencies: ModInt256 value-level operation contracts (spec/modint_value_ops.vrs; the Montgomery-level statements are proved in the modint_* units, the division by 2^256 between the two is by reading), bswap32 (byte reversal), constants written w64be(..) denote those integers. In the (impossible on a prime-order curve, not provable here) case X^3-3X+b == 0 the parity clause is waived. Other curves and encoders: stand-in only until their units are registered.",
         assumptions=["ModInt256 value-level contracts (decode32 strict with value, ring operations mod m, sqrt: status iff square and even root, equals/select/set_cond, encode32 little-endian canonical): declared",
                      "p256::bswap32 reverses 32 bytes: declared",
                      "Point::B / Point::THREE (compile-time Montgomery conversion of the literal limbs) represent the integers written in the source: declared axiom over the literals extracted from the source on every run",
                      "sval(x) in 0..m-1 for every ModInt256 value, ZERO/ONE represent 0/1: declared axioms",
+                     "the RFC 8032 claim that no square root exists when the candidate root fails both tests is not proved (acceptance is exact relative to the RFC procedure, sound relative to the curve equation); the SQRT_M1 literal is only shown to square to -1",
+                     "GFsecp256k1 / GF448 value-level operation contracts (decode, encode, ring operations, sqrt for secp256k1, equals / iszero / select / set_cond): declared",
                      "GF255 decode32 / encode (proved by Kani for the three instantiated moduli), sqrt (status iff square, non-negative root) and field division: declared contracts; GF255::MINUS_ONE represents -1: declared axiom"],
-        not_reached=["encoders, equals/isneutral of P-256", "ed25519, ed448, secp256k1, gls254, ristretto255, decaf448 (units pending)", "that the accepted strings are exactly the group elements (number theory of the Jacobi quartic) and injectivity of the encoding"],
+        not_reached=["encoders, equals/isneutral of P-256", "gls254, ristretto255, decaf448, the P-256 / secp256k1 / Edwards encoders", "that the accepted strings are exactly the group elements (number theory of the Jacobi quartic) and injectivity of the encoding"],
     ),
     "C07": dict(
         title="Ed25519/Ed448 verification equals the strict cofactored RFC 8032 predicate",
@@ -125,9 +127,15 @@ PROPS = {
     ),
     "C09": dict(
         title="jq255e/jq255s/GLS254 Schnorr signatures and ECDH behave as specified",
-        verus=[], kani=[],
+        verus=[("jq255e_schnorr", None, "quick"), ("jq255s_schnorr", None, "quick"), ("gls254_schnorr", None, "quick")], kani=[],
         cases=["jq255e_sign", "jq255e_verify", "jq255e_ecdh", "jq255s_sign", "jq255s_verify", "jq255s_ecdh", "gls254_sign", "gls254_verify", "gls254_ecdh"],
-        level="exploration",
+        level_text="For jq255e, jq255s and GLS254, PublicKey::verify, make_challenge, PrivateKey::sign_seeded / sign / sign_randomized, PrivateKey::ECDH and Scalar::encode are proved by Verus against the scheme's specification: verification is true exactly when the signature has 48 bytes, s = LE(sig[16..48]) is below the order and the first 16 bytes of BLAKE2s(ENC([s]B - [c']Q) || pk || domain || data) equal c, with c' the 128-bit integer of c (jq255e/s) or c0 + c1*mu from its two 64-bit halves (GLS254); the domain is 0x52 for raw data and 0x48 || name || 0x00 for a named hash; signing derives the nonce from BLAKE2s(LE32(d) || pk || LE8(len(seed)) || seed || domain || data) mod n and outputs c || LE32(k + d*c'); ECDH orders the two encoded keys, hashes them with tag 0x53 and ENC([d]Q) on success and with tag 0x46 and the secret scalar on an undecodable or neutral peer (status 0). Specification-level lemmas over the declared group axioms: every signature produced is accepted, and two well-formed key pairs derive the same key with a success status.",
+        level_note="Glue level: BLAKE2s-256, the scalar ring operations and codecs, point decoding / encoding / neutral test / generator multiplication / the combined multiplication fast paths are declared dependencies over an abstract prime-order group with its axioms (spec/group_decl.vrs). BLAKE2s streaming itself is proved in unit blake2s_stream (C17).",
+        assumptions=["Blake2s256 new / update / finalize compute BLAKE2s-256 of the concatenated updates; digest length 32 (declared)",
+                     "ModInt256 value-level contracts (decode32, decode_reduce, encode32, from_u64, from_u128, +, *; GLS254: MU represents its literal): declared",
+                     "Point set_decode / isneutral / encode / mulgen / Neg / Scalar*Point / mul128_add_mulgen_vartime / mul64mu_add_mulgen_vartime: declared over the abstract group; the group axioms (commutative group, scalar action, order n, injective canonical encoding) are declared",
+                     "std: from_le_bytes / to_le_bytes twins (lebytes), <&[T; N]>::try_from, u32::wrapping_neg, RngCore::fill_bytes keeps the buffer length, str::len is the byte length (precondition str_ok)"],
+        not_reached=["the point arithmetic behind the declared group operations (C03/C04/C10)", "PrivateKey / PublicKey decode and encode"],
     ),
     "C10": dict(
         title="Variable-time fast paths agree with the constant-time reference",
